@@ -151,7 +151,7 @@ def run(ctx):
     obs = ctx.obs
     rng = ctx.rng
     parser()
-    n = ctx.share(ctx.pick(12000, 400000))
+    n = ctx.share(ctx.pick(12000, 1200000))
     for k in range(n):
         ig = rng.random() < 0.5
         lines, expected, spans = hunks.gen_diff(rng, ig)
@@ -177,7 +177,7 @@ def run(ctx):
               res['total_inserts'] or res['total_deletes']):
             obs.violation('empty_list_result', {'lines': [],
                                                 'ignore_garbage': ig}, res)
-    for _ in range(ctx.share(ctx.pick(12000, 300000))):
+    for _ in range(ctx.share(ctx.pick(12000, 900000))):
         ln = [rng.choice(pool) if rng.random() < 0.8 else
               bytes(rng.randrange(256) for _ in range(rng.randint(0, 12)))
               for _ in range(rng.randint(0, 14))]
